@@ -98,6 +98,13 @@ def to_wikitext(
             parts.append(node.sarg)
             for x in node.children:
                 parts.append(recurse(x))
+            if node.definition is not None:
+                # "; term : definition", or the definition on its own line
+                # with the ":" form of the prefix if the term ends its line
+                if "".join(parts).endswith("\n"):
+                    parts.append(node.sarg[:-1])
+                parts.append(":")
+                parts.append(recurse(node.definition))
         elif kind == NodeKind.PRE:
             parts.append("<pre>")
             parts.append(recurse(node.children))
